@@ -42,4 +42,12 @@ def handleDiffSchema (j : Json) : Json :=
   let to := (arr j "to").map parseDTable
   Json.mkObj [("changes", jstrs ((schemaDiff frm to).flatMap chStrs))]
 
+def ochStr : OChange → String
+  | .dropObject n => s!"dropObject {n}" | .modifyObject n => s!"modifyObject {n}" | .addObject n => s!"addObject {n}"
+
+/-- op "diff.objects": {from:[{name,values}], to:[...]} -/
+def handleDiffObjects (j : Json) : Json :=
+  let p := fun (o : Json) => (⟨nat o "name", nats o "values"⟩ : EnumObj)
+  Json.mkObj [("changes", jstrs ((objectDiff ((arr j "from").map p) ((arr j "to").map p)).map ochStr))]
+
 end Driver
